@@ -255,3 +255,43 @@ func vfTag(in *Interp, fn *ssa.Function, a []Value) Value {
 func vfTier(in *Interp, fn *ssa.Function, a []Value) Value {
 	return in.intTerm(tierInt(in.cfg.Tier))
 }
+
+// vfPar(f1, f2, ...): the bodies are the threads of a parallel region. The engine runs them one
+// after another in an order chosen by a choice fork, tagging logged events with the thread number.
+func vfPar(in *Interp, fn *ssa.Function, a []Value) Value {
+	fs := in.sliceElems(a[0].(SliceV))
+	n := len(fs)
+	perms := permutations(n)
+	order := perms[in.choice(len(perms))]
+	for _, idx := range order {
+		in.curThread = idx + 1
+		fv := fs[idx].(FuncV)
+		in.callFn(fv.fn, nil, fv.env)
+	}
+	in.curThread = 0
+	in.parRegions++
+	return nil
+}
+
+func permutations(n int) [][]int {
+	if n <= 1 {
+		return [][]int{{0}}[:n]
+	}
+	var out [][]int
+	var rec func(cur []int, used []bool)
+	rec = func(cur []int, used []bool) {
+		if len(cur) == n {
+			out = append(out, append([]int(nil), cur...))
+			return
+		}
+		for i := 0; i < n; i++ {
+			if !used[i] {
+				used[i] = true
+				rec(append(cur, i), used)
+				used[i] = false
+			}
+		}
+	}
+	rec(nil, make([]bool, n))
+	return out
+}
